@@ -180,6 +180,30 @@ U("cfg_free", entry="h_cfg_free", func="cfg_free, cfg_free_opt_array, cfg_free_v
 U("getopt_leaf", entry="h_getopt_leaf", func="cfg_getopt_leaf", cbmc=unw(6) + NOOOM, label="bounded(2 options, 1-byte names over all bytes)", props=["C01", "C11", "C02"], cost=10, **SCH)
 U("addopt", entry="h_addopt", func="cfg_addopt", cbmc=unw(6) + OOM, label="bounded(<= 2 existing keys; any allocation may fail)", props=["C01", "C18", "C02"], cost=30, **SCH)
 
+# ------------------------------------------------------------------ path resolution (C11)
+RES = dict(harness="harness/resolve.c")
+U("parse_title", entry="h_parse_title", func="parse_title", defs={"quick": ["-DPATHN=5", "-DCFGV_FIXED_DUP=8"], "thorough": ["-DPATHN=7", "-DCFGV_FIXED_DUP=10"]},
+  cbmc={"quick": unw(7) + OOM + LEAK, "thorough": unw(9) + OOM + LEAK},
+  label="bounded(qualifier text <= 5 bytes quick / 7 thorough, all bytes; any allocation may fail; fixed-size string copies)", props=["C11", "C18", "C02"], term_props=["C11", "C02"], cost=40, **RES)
+COMBOTXT = ["single section", "multi section, by index", "multi titled section", "multi titled section, case-insensitive", "single titled section"]
+for _combo in range(5):
+    for _ns in ((0, 1) if _combo in (0, 4) else (0, 1, 2)):
+        for _kind, _entry, _fn in (("getopt", "h_getopt_path", "cfg_getopt, cfg_getopt_secidx, cfg_opt_gettsecidx, cfg_getopt_leaf, parse_title"), ("getsec", "h_getsec_path", "cfg_getsec, cfg_getopt_secidx")):
+            for _pn, _tiers in ((3, ("quick", "thorough")), (5, ("thorough",))):
+                if _pn == 5 and _ns == 0:
+                    continue
+                U("%s_path_c%dk%dn%d" % (_kind, _combo, _ns, _pn), entry=_entry, func=_fn,
+                  defs={"quick": ["-DPATHN=%d" % _pn, "-DNSEC=%d" % _ns, "-DTREE_COMBO=%d" % _combo, "-DCFGV_FIXED_DUP=8"]}, cbmc=unw(_pn + 2) + NOOOM, tiers=_tiers, timeout=1800,
+                  label="bounded(path <= %d bytes over all bytes; tree root{a, s{b}}: %s with %d instance(s), titles 1 byte; no allocation failure; fixed-size string copies)" % (_pn, COMBOTXT[_combo], _ns),
+                  props=["C11", "C06", "C02"] if _kind == "getopt" else ["C11", "C02"], term_props=["C11", "C02"], cost=100 if _pn == 3 else 600, **RES)
+for _c in range(4):
+    U("getopt_array_c%d" % _c, entry="h_getopt_array", func="cfg_getopt_array", defs={"quick": ["-DPATHN=3", "-DCFGV_FIXED_DUP=8", "-DGA_CASE=%d" % _c], "thorough": ["-DPATHN=4", "-DCFGV_FIXED_DUP=8", "-DGA_CASE=%d" % _c]},
+      cbmc={"quick": unw(5) + NOOOM, "thorough": unw(6) + NOOOM},
+      label="bounded(path <= 3 bytes quick / 4 thorough; recursion by contract on the extracted copy; %s section %s an instance)" % ("multi" if _c & 2 else "single", "with" if _c & 1 else "without"),
+      props=["C14", "C11", "C02"], term_props=["C11", "C02"], cost=200, **RES)
+U("getopt_array_leaf", entry="h_getopt_array_leaf", func="cfg_getopt_array (nested-call contract)", defs={"quick": ["-DPATHN=3", "-DCFGV_FIXED_DUP=8"]}, cbmc=unw(5) + NOOOM,
+  label="bounded(name <= 3 bytes)", props=["C14", "C11", "C02"], term_props=["C11", "C02"], cost=20, **RES)
+
 # ------------------------------------------------------------------ per-property text for MANIFEST / evidence
 HOOK_COMMITS = ["b37b503"]
 NOT_APPLICABLE = {}
